@@ -12,9 +12,10 @@ cleanup() { git -C /repo worktree remove --force "$wt" 2>/dev/null; git -C /repo
 trap cleanup EXIT
 shim=/verif/harness/numba_shim
 cd "$wt"
-PYTHONPATH="$wt:$shim" /venv/bin/python "$src/demo$n.py" >/tmp/confirm_$sid.clean.log 2>&1; clean_rc=$?
+cp "$src/demo$n.py" "$wt/demo_seed.py"   # a script's own directory leads sys.path: run it from inside the scratch tree
+PYTHONPATH="$wt:$shim" /venv/bin/python "$wt/demo_seed.py" >/tmp/confirm_$sid.clean.log 2>&1; clean_rc=$?
 if ! git apply "$src/patch$n.diff"; then echo "$sid: PATCH DOES NOT APPLY"; exit 1; fi
-PYTHONPATH="$wt:$shim" /venv/bin/python "$src/demo$n.py" >/tmp/confirm_$sid.patched.log 2>&1; patched_rc=$?
+PYTHONPATH="$wt:$shim" /venv/bin/python "$wt/demo_seed.py" >/tmp/confirm_$sid.patched.log 2>&1; patched_rc=$?
 PYTHONPATH="$wt" /venv/bin/python -m pytest -q -p no:cacheprovider -n ${NPROC:-8} xgcm >/tmp/confirm_$sid.tests.log 2>&1; tests_rc=$?
 summary=$(tail -1 /tmp/confirm_$sid.tests.log)
 echo "$sid: demo clean rc=$clean_rc patched rc=$patched_rc tests rc=$tests_rc :: $summary"
